@@ -10,11 +10,14 @@ CONSTANTS Methods,        \* request methods
           NTargets, NQueries, NPool, NBodies, NEndpoints,   \* how much of each pool is used
           Kinds,          \* responder kinds of the generated application
           NOptions,       \* how many request-option settings
+          Statuses,       \* statuses a "plain" responder may set
+          PlainShare,     \* 0: fixed responder scripts only; 1: "plain" responders (status x source x Content-Type) as well
+          NForwarding,    \* how many shapes of forwarding chains (relative to the peer address)
           UnderscoreNames \* wrong-design switch: offer a field name containing '_' (PEP 3333 folds it onto '-')
 
 VARIABLES r,      \* the request being composed
-          stage,  \* "start" | "target" | "query" | "headers" | "body" | "endpoint" | "send" | "sent"
-          app     \* the generated application the request is meant for: [opts, kind]
+          stage,  \* "start" | "responder" | "target" | "query" | "headers" | "body" | "endpoint" | "forwarding" | "send" | "sent"
+          app     \* the generated application the request is meant for: [opts, kind, resp]
 vars == <<r, stage, app>>
 
 MCTargets == <<
@@ -99,6 +102,37 @@ MCOptions == <<
     [strip |-> TRUE,  keep_blank |-> FALSE, csv |-> TRUE],
     [strip |-> TRUE,  keep_blank |-> TRUE,  csv |-> FALSE]
 >>
+(* forwarding chains are built relative to the request's own peer address P (A, B: other addresses):
+   peer absent, peer last, peer first of several, peer in the middle, peer twice, peer alone *)
+ADDR_A == <<50, 48, 51, 46, 48, 46, 49, 49, 51, 46, 55>>               \* 203.0.113.7
+ADDR_B == <<49, 57, 56, 46, 53, 49, 46, 49, 48, 48, 46, 50>>           \* 198.51.100.2
+XFFName == <<88, 45, 70, 111, 114, 119, 97, 114, 100, 101, 100, 45, 70, 111, 114>>    \* X-Forwarded-For
+FwdName == <<70, 111, 114, 119, 97, 114, 100, 101, 100>>                              \* Forwarded
+RipName == <<88, 45, 82, 101, 97, 108, 45, 73, 80>>                                   \* X-Real-IP
+MCForwarding == <<
+    [field |-> "none", chain |-> <<>>],
+    [field |-> "xff",  chain |-> <<"P", "A">>],
+    [field |-> "fwd",  chain |-> <<"P", "A">>],
+    [field |-> "xff",  chain |-> <<"A", "P", "B">>],
+    [field |-> "xff",  chain |-> <<"A", "P">>],
+    [field |-> "xff",  chain |-> <<"P", "A", "P">>],
+    [field |-> "fwd",  chain |-> <<"A", "P", "B">>],
+    [field |-> "xff",  chain |-> <<"A", "B">>],
+    [field |-> "rip",  chain |-> <<"P">>],
+    [field |-> "fwd",  chain |-> <<"P", "A", "P">>],
+    [field |-> "xff",  chain |-> <<"P">>],
+    [field |-> "fwd",  chain |-> <<"A", "P">>],
+    [field |-> "rip",  chain |-> <<"A">>],
+    [field |-> "fwd",  chain |-> <<"A", "B">>]
+>>
+Addr(tok, peer) == CASE tok = "P" -> peer [] tok = "A" -> ADDR_A [] OTHER -> ADDR_B
+ForwardingFields(f, peer) ==
+    LET as == [i \in 1..Len(f.chain) |-> Addr(f.chain[i], peer)] IN
+    CASE f.field = "xff" -> <<H(XFFName, JoinSep(as, <<44, 32>>))>>                                          \* a, b
+      [] f.field = "fwd" -> <<H(FwdName, JoinSep([i \in 1..Len(as) |-> <<102, 111, 114, 61>> \o as[i]], <<44, 32>>))>>   \* for=a, for=b
+      [] f.field = "rip" -> <<H(RipName, as[1])>>
+      [] OTHER -> <<>>
+
 UAField == H(<<85, 115, 101, 114, 45, 65, 103, 101, 110, 116>>, <<117, 97>>)     \* User-Agent: ua
 
 Pool == {MCHeaderPool[i] : i \in 1..NPool} \cup (IF UnderscoreNames THEN {UnderscoreHeader} ELSE {})
@@ -106,13 +140,17 @@ Pool == {MCHeaderPool[i] : i \in 1..NPool} \cup (IF UnderscoreNames THEN {Unders
 Blank == [method |-> "GET", target |-> <<SLASH>>, query |-> <<>>, headers |-> <<>>, body |-> <<>>, chunks |-> <<>>,
           scheme |-> "http", server |-> [name |-> FALCON, port |-> 80], root |-> <<>>, peer |-> LOOPBACK, version |-> "1.1"]
 
-Init == r = Blank /\ stage = "start" /\ app = [opts |-> MCOptions[1], kind |-> "echo"]
+Init == r = Blank /\ stage = "start" /\ app = [opts |-> MCOptions[1], kind |-> "echo", resp |-> NoPlain]
 
-Start(m, ua, o, k) ==
+Start(m, ua, o) ==
     /\ stage = "start"
     /\ r' = [r EXCEPT !.method = m, !.headers = IF ua THEN <<UAField>> ELSE <<>>]
-    /\ app' = [opts |-> MCOptions[o], kind |-> k]
-    /\ stage' = "target"
+    /\ app' = [app EXCEPT !.opts = MCOptions[o]]
+    /\ stage' = "responder"
+SetResponder(k, p) ==
+    /\ stage = "responder"
+    /\ app' = [app EXCEPT !.kind = k, !.resp = p]
+    /\ stage' = "target" /\ UNCHANGED r
 SetTarget(t) == stage = "target" /\ r' = [r EXCEPT !.target = t] /\ stage' = "query" /\ UNCHANGED app
 SetQuery(q)  == stage = "query" /\ r' = [r EXCEPT !.query = q] /\ stage' = "headers" /\ UNCHANGED app
 PoolFields == Len(r.headers) - (IF r.headers # <<>> /\ r.headers[1] = UAField THEN 1 ELSE 0)
@@ -137,18 +175,26 @@ SetEndpoint(e) ==
                    [] OTHER -> <<>>
        IN r' = [r EXCEPT !.scheme = e.scheme, !.server = [name |-> e.name, port |-> e.port], !.root = e.root,
                          !.peer = e.peer, !.version = e.version, !.headers = hs \o @]
+    /\ stage' = "forwarding" /\ UNCHANGED app
+SetForwarding(f) ==
+    /\ stage = "forwarding"
+    /\ r' = [r EXCEPT !.headers = @ \o ForwardingFields(f, r.peer)]
     /\ stage' = "send" /\ UNCHANGED app
 Send == stage = "send" /\ stage' = "sent" /\ UNCHANGED <<r, app>>
 
-XStart       == \E m \in Methods, u \in 1..4, o \in 1..NOptions, k \in Kinds : Start(m, u > 1, o, k)   \* 3 in 4 carry a User-Agent
+PlainParams  == [status : Statuses, source : PlainSources, ctype : BOOLEAN]
+XStart       == \E m \in Methods, u \in 1..4, o \in 1..NOptions : Start(m, u > 1, o)            \* 3 in 4 carry a User-Agent
+XSetResponder == \/ \E k \in Kinds : SetResponder(k, NoPlain)
+                 \/ \E w \in 1..PlainShare, p \in PlainParams : SetResponder("plain", p)
 XSetTarget   == \E i \in 1..NTargets : SetTarget(MCTargets[i])
 XSetQuery    == \E i \in 1..NQueries : SetQuery(MCQueries[i])
 XAddHeader   == \E h \in Pool : AddHeader(h)
 XEndHeaders  == EndHeaders
 XSetBody     == \E i \in 1..NBodies : SetBody(MCBodies[i])
 XSetEndpoint == \E i \in 1..NEndpoints : SetEndpoint(MCEndpoints[i])
+XSetForwarding == \E i \in 1..NForwarding : SetForwarding(MCForwarding[i])
 XSend        == Send
-Next == XStart \/ XSetTarget \/ XSetQuery \/ XAddHeader \/ XEndHeaders \/ XSetBody \/ XSetEndpoint \/ XSend
+Next == XStart \/ XSetResponder \/ XSetTarget \/ XSetQuery \/ XAddHeader \/ XEndHeaders \/ XSetBody \/ XSetEndpoint \/ XSetForwarding \/ XSend
 Spec == Init /\ [][Next]_vars
 
 Sent == stage = "sent"
@@ -167,10 +213,10 @@ Exp(v) == [method |-> v.method, path |-> v.path, query |-> v.query, hmap |-> v.h
            ctype |-> v.ctype, clen |-> v.clen, host |-> v.host, port |-> v.port, netloc |-> v.netloc,
            scheme |-> v.scheme, root |-> v.root, peer |-> v.peer, body |-> v.body]
 Emit == Sent => PrintT(ToJson(
-          [req |-> r, opts |-> app.opts, kind |-> app.kind, status |-> ResponderStatus(app.kind),
+          [req |-> r, opts |-> app.opts, kind |-> app.kind, resp |-> app.resp, status |-> ResponderStatus(app.kind, app.resp),
            environ |-> ToEnviron(r), scope |-> ToScope(r), client |-> ToClientArgs(r),
            canonical |-> Canonical(r.headers),
-           expressible |-> [raw_wsgi |-> Expressible(r, "raw-wsgi"), raw_asgi |-> Expressible(r, "raw-asgi"),
-                            client_wsgi |-> Expressible(r, "client-wsgi"), client_asgi |-> Expressible(r, "client-asgi")],
+           expressible |-> [raw_wsgi |-> Expressible(r, "raw-wsgi") /\ Reportable("raw-wsgi", app.kind, app.resp), raw_asgi |-> Expressible(r, "raw-asgi") /\ Reportable("raw-asgi", app.kind, app.resp),
+                            client_wsgi |-> Expressible(r, "client-wsgi") /\ Reportable("client-wsgi", app.kind, app.resp), client_asgi |-> Expressible(r, "client-asgi") /\ Reportable("client-asgi", app.kind, app.resp)],
            expected |-> Exp(View(r, app.opts))]))
 ================================================================================
